@@ -3,6 +3,7 @@ import Hw.Topo.WF
 import Hw.Topo.InsertWF
 import Hw.Topo.RenderOf
 import Driver.Util
+import Hw.Topo.Symmetric
 namespace Driver.TopoEng
 open Hw.Topo Driver
 
@@ -121,7 +122,7 @@ def step (p : Partial) (line : String) : Partial × String :=
       -- renderer oracle: the loaded topology is a fixed point of the renderer (links, levels, cousins, type depths recomputed
       -- from the bare tree must reproduce hwloc's connect code), and its tree is typed with a normal root; by
       -- C01_links_of_render the 18 link / level clauses then FOLLOW (they are not merely evaluated)
-      let v := v ++ ri ++ Hw.Topo.Restrict.renderCheck d
+      let v := v ++ ri ++ Hw.Topo.Restrict.renderCheck d ++ Hw.Topo.Sym.symCheck d
       (p', if v.isEmpty then "WF ok" else "WF FAIL " ++ ",".intercalate (v.take 6))
 
 end Driver.TopoEng
